@@ -40,6 +40,14 @@ var externalAssumptions = map[string]string{
 	"strings.NewReader":       "returns a fresh reader positioned at 0 over s",
 	"strings.(*Reader).ReadRune": "at position i < len(s): returns (ch, size, nil) with 1 <= size <= 4, i+size <= len(s), advances i by size; ch < 0x80 iff s[i] < 0x80, and then size == 1 and ch == s[i]; at i >= len(s): returns (0, 0, non-nil error), reader unchanged",
 	"slices.Contains":         "pure; returns some bool",
+	"github.com/kamstrup/intmap.New":          "returns a fresh empty map",
+	"github.com/kamstrup/intmap.(*Map).Get":   "finite-map semantics: (value stored under key, true) or (zero, false); no state change",
+	"github.com/kamstrup/intmap.(*Map).Put":   "finite-map semantics: afterwards key maps to val, other keys unchanged",
+	"github.com/kamstrup/intmap.(*Map).Del":   "finite-map semantics: afterwards key is absent, other keys unchanged",
+	"github.com/kamstrup/intmap.(*Map).Clear": "finite-map semantics: afterwards every key is absent",
+	"github.com/kamstrup/intmap.(*Map).Len":   "returns a non-negative int; no state change",
+	"container/list":                          "list.New/Front/PushFront/Remove: results unconstrained, no program state other than the list modified (the list contents are not modelled)",
+	"bufio":                                   "bufio.NewReader/(*Reader).ReadString: results unconstrained; no program state modified",
 }
 
 func shortKey(key string) string {
@@ -57,14 +65,14 @@ func (e *Engine) pureExternal(key string) bool {
 		return true
 	case strings.HasPrefix(k, "fmt."), strings.HasPrefix(k, "strconv."), strings.HasPrefix(k, "strings."),
 		strings.HasPrefix(k, "errors."), strings.HasPrefix(k, "unicode"), strings.HasPrefix(k, "math."),
-		strings.HasPrefix(k, "slices.Contains"):
+		strings.HasPrefix(k, "slices.Contains"), strings.HasPrefix(k, "container/list."), strings.HasPrefix(k, "bufio."):
 		return true
 	}
 	return false
 }
 
 func (e *Engine) externalAllocates(key string) bool {
-	return strings.HasPrefix(shortKey(key), "slices.Clone")
+	return strings.HasPrefix(shortKey(key), "slices.Clone") || strings.HasPrefix(key, "github.com/kamstrup/intmap.")
 }
 
 func (e *Engine) externalComps(key string, fn *ssa.Function) []string {
@@ -73,10 +81,44 @@ func (e *Engine) externalComps(key string, fn *ssa.Function) []string {
 			return []string{"E!" + typeKey(sl.Elem())}
 		}
 	}
+	if ik := intmapKey(key); ik != "" && ik != "Get" && ik != "Len" {
+		return []string{"IMD", "IMV"}
+	}
 	return nil
 }
 
+func intmapKey(key string) string {
+	if !strings.HasPrefix(key, "github.com/kamstrup/intmap.") {
+		return ""
+	}
+	if strings.HasPrefix(key, "github.com/kamstrup/intmap.New") {
+		return "New"
+	}
+	if i := strings.Index(key, ")."); i >= 0 {
+		k := key[i+2:]
+		if j := strings.Index(k, "["); j >= 0 {
+			k = k[:j]
+		}
+		return k
+	}
+	return ""
+}
+
 func (e *Engine) external(key string, fn *ssa.Function) extFn {
+	switch intmapKey(key) {
+	case "New":
+		return extIntmapNew
+	case "Get":
+		return extIntmapGet
+	case "Put":
+		return extIntmapPut
+	case "Del":
+		return extIntmapDel
+	case "Clear":
+		return extIntmapClear
+	case "Len":
+		return extIntmapLen
+	}
 	k := shortKey(key)
 	switch k {
 	case "slices.Clone":
@@ -361,4 +403,98 @@ func extParseFloat(x *Exec, fr *Frame, st *State, fn *ssa.Function, args []*SV, 
 	w.declFun("pfloat_err", "(Str) Iface")
 	s := x.svTerm(args[0])
 	k(st, fr, &SV{Tuple: []*SV{TV(App("pfloat_val", SF64, s)), TV(App("pfloat_err", SIfc, s))}})
+}
+
+
+// ---- github.com/kamstrup/intmap: a Map object is modelled as a finite map (domain IMD, values IMV)
+// from integer keys to values of the map's value sort, per map reference.
+
+func (x *Exec) intmapComps(h *Heap, vt types.Type) (*Term, *Term) {
+	w := x.w
+	d := x.compOf(h, "IMD", ArraySort(SInt, ArraySort(w.IS, SBool)))
+	v := x.compOf(h, "IMV", ArraySort(SInt, ArraySort(w.IS, w.SortOf(vt))))
+	return d, v
+}
+
+func intmapValType(fn *ssa.Function) types.Type {
+	// Get returns (V, bool); Put takes (K, V)
+	if r := fn.Signature.Results(); r.Len() == 2 {
+		return r.At(0).Type()
+	}
+	if p := fn.Signature.Params(); p.Len() == 2 {
+		return p.At(1).Type()
+	}
+	return nil
+}
+
+func (x *Exec) intmapVT(fn *ssa.Function) types.Type {
+	if r := fn.Signature.Recv(); r != nil {
+		if pt, ok := r.Type().(*types.Pointer); ok {
+			if n, ok := pt.Elem().(*types.Named); ok && n.TypeArgs().Len() == 2 {
+				x.imVal = n.TypeArgs().At(1)
+			}
+		}
+	}
+	if t := intmapValType(fn); t != nil && x.imVal == nil {
+		x.imVal = t
+	}
+	if x.imVal == nil {
+		unsupportedf("intmap value type unknown at %s", fn)
+	}
+	return x.imVal
+}
+
+func extIntmapNew(x *Exec, fr *Frame, st *State, fn *ssa.Function, args []*SV, site ssa.Instruction, k callK) {
+	// result type *Map[K,V]: find V from the type arguments
+	if pt, ok := fn.Signature.Results().At(0).Type().(*types.Pointer); ok {
+		if n, ok := pt.Elem().(*types.Named); ok && n.TypeArgs().Len() == 2 {
+			x.imVal = n.TypeArgs().At(1)
+		}
+	}
+	r := x.newRef(st)
+	d, _ := x.intmapComps(st.heap, x.intmapVT(fn))
+	x.setComp(st.heap, "IMD", Store(d, r, ConstArray(ArraySort(x.w.IS, SBool), TFalse)))
+	x.writes["IMD"] = true
+	k(st, fr, TV(r))
+}
+
+func extIntmapGet(x *Exec, fr *Frame, st *State, fn *ssa.Function, args []*SV, site ssa.Instruction, k callK) {
+	vt := x.intmapVT(fn)
+	d, v := x.intmapComps(st.heap, vt)
+	m, key := x.svTerm(args[0]), x.svTerm(args[1])
+	has := Select(Select(d, m), key)
+	val := Ite(has, Select(Select(v, m), key), x.w.Zero(vt))
+	k(st, fr, &SV{Tuple: []*SV{TV(val), TV(has)}})
+}
+
+func extIntmapPut(x *Exec, fr *Frame, st *State, fn *ssa.Function, args []*SV, site ssa.Instruction, k callK) {
+	vt := x.intmapVT(fn)
+	d, v := x.intmapComps(st.heap, vt)
+	m, key, val := x.svTerm(args[0]), x.svTerm(args[1]), x.svTerm(args[2])
+	x.setComp(st.heap, "IMD", Store(d, m, Store(Select(d, m), key, TTrue)))
+	x.setComp(st.heap, "IMV", Store(v, m, Store(Select(v, m), key, val)))
+	x.writes["IMD"], x.writes["IMV"] = true, true
+	k(st, fr, &SV{})
+}
+
+func extIntmapDel(x *Exec, fr *Frame, st *State, fn *ssa.Function, args []*SV, site ssa.Instruction, k callK) {
+	d, _ := x.intmapComps(st.heap, x.intmapVT(fn))
+	m, key := x.svTerm(args[0]), x.svTerm(args[1])
+	x.setComp(st.heap, "IMD", Store(d, m, Store(Select(d, m), key, TFalse)))
+	x.writes["IMD"] = true
+	k(st, fr, x.freshOfType(st, "im.del", fn.Signature.Results()))
+}
+
+func extIntmapClear(x *Exec, fr *Frame, st *State, fn *ssa.Function, args []*SV, site ssa.Instruction, k callK) {
+	d, _ := x.intmapComps(st.heap, x.intmapVT(fn))
+	m := x.svTerm(args[0])
+	x.setComp(st.heap, "IMD", Store(d, m, ConstArray(ArraySort(x.w.IS, SBool), TFalse)))
+	x.writes["IMD"] = true
+	k(st, fr, &SV{})
+}
+
+func extIntmapLen(x *Exec, fr *Frame, st *State, fn *ssa.Function, args []*SV, site ssa.Instruction, k callK) {
+	n := x.w.Fresh("im.len", x.w.IS)
+	st.assume(x.w.Le(x.w.Int(0), n))
+	k(st, fr, TV(n))
 }
